@@ -92,7 +92,7 @@ def problem_descs(allow_tabular=True, allow_shipped=True, rot=0):
     opts = []
     if allow_tabular:
         opts.append(mdp_specs(max_states=6, min_states=2, max_actions=3, max_events=3, allow_pol0=False, chain="hub",
-                              reward_scales=(0, 0), allow_int_v0=False).map(lambda s: dict(kind="tabular", spec=s)))
+                              reward_scales=(0, 0)).map(lambda s: dict(kind="tabular", spec=s)))
     if allow_shipped:
         sh = SHIPPED_SMALL[rot % len(SHIPPED_SMALL):] + SHIPPED_SMALL[: rot % len(SHIPPED_SMALL)]
         opts.append(st.sampled_from(sh).map(lambda kp: dict(kind=kp[0], params=dict(kp[1]))))
